@@ -31,6 +31,7 @@ pub fn build(s: &C07Scn) -> WorldSys {
 	sys.settle_on_chain = true;
 	sys.sweep_at_end = true;
 	sys.miner_delay = s.miner_delay;
+	sys.fee_after_first_stall_block = s.feerate_after_close;
 	sys.oracles.push(Box::new(NoErrorOracle { allow_coop: false, allow_force_by_user: true }));
 	sys.oracles.push(Box::new(CommitmentOracle::new(infos)));
 	sys.oracles.push(Box::new(rev));
@@ -96,6 +97,21 @@ pub fn scenarios(tier: Tier) -> Vec<C07Scn> {
 					miner_delay: delay,
 				});
 			}
+			// fee spike at the close that collapses while the claims are still unconfirmed
+			v.push(C07Scn {
+				name: format!("{}-close-by{}-fee-spike-then-drop", n, closer),
+				ct,
+				ops: vec![
+					send(0, 1, 50_000_000, ClaimPolicy::Hold),
+					send(1, 0, 30_000_000, ClaimPolicy::Hold),
+					Op::SetFeeAll { rate: 5000 },
+					Op::ForceClose { node: closer, chan: 0 },
+					Op::ClaimHeld { pay: 0 },
+				],
+				k: if th { 1 } else { 0 },
+				feerate_after_close: Some(253),
+				miner_delay: 17,
+			});
 			// mixed: one claimed off-chain before the close, one pending
 			v.push(C07Scn {
 				name: format!("{}-close-by{}-mixed", n, closer),
